@@ -3,6 +3,7 @@ package rules
 
 import (
 	"sort"
+	"strings"
 
 	"hdrcheck/an"
 )
@@ -16,6 +17,67 @@ type Rule struct {
 	Technique   string // deciding method, for MANIFEST.json
 	Trusted     string // trusted base / assumptions, for MANIFEST.json (level_note)
 	Run         func(c *an.Ctx)
+	// Imports are clauses of other properties that this property's statement also
+	// depends on; their obligations are re-evaluated and reported under this
+	// property as well (id As), so a change that breaks the shared clause is
+	// reported by every property whose statement it breaks.
+	Imports []Import
+}
+
+// Import re-uses the obligations with id From (e.g. "C06.a") of another property's rule.
+type Import struct {
+	From  string // obligation id of the other rule, e.g. "C06.a"
+	Match string // optional: only obligations whose key contains this
+	As    string // id under which it is reported here, e.g. "C04.f"
+	Why   string // why this property's statement depends on that clause
+}
+
+// Execute runs a rule and its imports into ctx.
+func Execute(r *Rule, ctx *an.Ctx) {
+	r.Run(ctx)
+	done := map[string]*an.Ctx{}
+	for _, im := range r.Imports {
+		prop := im.From
+		if i := indexByte(prop, '.'); i >= 0 {
+			prop = prop[:i]
+		}
+		other := registry[prop]
+		if other == nil {
+			ctx.Undecided(im.As, "import:"+im.From, "imported clause must resolve", nil, nil, "no rule "+prop)
+			continue
+		}
+		sub := done[prop]
+		if sub == nil {
+			sub = an.NewCtx(ctx.P, prop, ctx.Tier)
+			func() {
+				defer func() {
+					if e := recover(); e != nil {
+						sub.Undecided(im.From, "analyser-panic", "the analyser must not panic", nil, nil, "panic in imported rule")
+					}
+				}()
+				other.Run(sub)
+			}()
+			done[prop] = sub
+		}
+		n := 0
+		for _, o := range sub.Obls {
+			if o.ID != im.From || !strings.Contains(o.Key, im.Match) {
+				continue
+			}
+			n++
+			ctx.ImportObligation(o, im.As, im.Why)
+		}
+		ctx.Min(im.As, "obligations shared from "+im.From+" "+im.Match, n, 1)
+	}
+}
+
+func indexByte(s string, b byte) int {
+	for i := 0; i < len(s); i++ {
+		if s[i] == b {
+			return i
+		}
+	}
+	return -1
 }
 
 var registry = map[string]*Rule{}
